@@ -291,12 +291,19 @@ def selftest(ctx, rng):
         ctx.discharged.append("gen/selftest_C14.v:software sin/cos/asin agree with math")
 
 
+# capstone corollaries of coq/link/K_grads.v: for each of these functions, the P_C14 theorem restated about the translated source
+CAPSTONES = tuple("C14_src_%s_grad" % f for f in (
+    "euclidean", "manhattan", "chebyshev", "minkowski", "weighted_minkowski", "standardised_euclidean", "mahalanobis", "cosine",
+    "correlation", "canberra", "bray_curtis", "hellinger", "hyperboloid", "haversine", "spherical_gaussian_energy",
+    "diagonal_gaussian_energy"))
+
+
 def run(ctx):
     ctx.check_proofs(["prop/P_C14.v"])
     # translation tie: Gallina regenerated from the current umap/distances.py; link theorems src_<fn>_eq (= M_grads model) re-checked
     lres = link.check(ctx, "distances_grads", {fn: "src_%s_eq" % fn for fn in LINKED}, NOT_TRANSLATED)
     # capstone corollaries (coq/link/K_grads.v): "returned gradient = derivative of the returned distance" about the translated source itself
-    for thm in ("C14_src_euclidean_grad", "C14_src_manhattan_grad"):
+    for thm in CAPSTONES:
         ob = "link:distances_grads:" + thm
         ctx.obligations.append(ob)
         badax = [a for a in lres.axioms.get(thm, []) if a not in link.coqrun.ALLOWED_AXIOMS and not ctx._primitive(a)]
